@@ -58,7 +58,19 @@ def augment_exception_message_and_reraise(exception, message):
   try:
     proxy = ExceptionProxy.__new__(ExceptionProxy, *exception.args)
   except TypeError:
-    proxy = ExceptionProxy.__new__(ExceptionProxy)
+    try:
+      proxy = ExceptionProxy.__new__(ExceptionProxy)
+    except TypeError:
+      # A user-defined `__new__` whose arguments `args` doesn't mirror: fall back
+      # to the first C-level `__new__` in the MRO.
+      c_new = next(
+          vars(base)['__new__']
+          for base in type(exception).__mro__
+          if isinstance(vars(base).get('__new__'), type(object.__new__)))
+      try:
+        proxy = c_new(ExceptionProxy, *exception.args)
+      except TypeError:
+        proxy = c_new(ExceptionProxy)
   # The interpreter reads some builtin fields (e.g. `StopIteration.value` in
   # `yield from`) straight from the C struct: let the builtin base fill them in.
   for base in type(exception).__mro__:
